@@ -5,12 +5,16 @@ Proof part: QbiceVerif.Props.C16 (model QbiceVerif.Model.TinyLfu).  Corresponden
 and the same lines go through the Lean driver `drv_lfu`; every answer and every question the
 removal closure asks the listener (i.e. the exact eviction order) is compared.  Oracle: reference map
 minus listener-approved evictions, pinned residents stay, resident bound, no panic; plus
-multi-threaded cache runs and a lock-table stress (oracle only).
+multi-threaded cache runs and a lock-table stress (oracle only).  Notify (protocol followed) is also judged by the
+sharper bound of bounded_notify_buffered (resident <= capacity + currently pinned + messages buffered since the last
+maintenance pass; right after a pass with nothing pinned: resident <= capacity, i.e. every resident unpinned entry is
+tracked by the policy), and a write-behind family (write pinned / flush / re-write before the next maintenance pass /
+flush, keys >> capacity, quiesced at the end) runs on every check; `search` boosts that family first.
 """
 import json, os, subprocess, vlib
 
 PID = "C16"
-LEAN_MODULES = ["QbiceVerif.Props.C16"]
+LEAN_MODULES = ["QbiceVerif.Props.C16", "QbiceVerif.Lemmas.TinyLfuUnpinSeed"]
 DRIVER = "drv_lfu"
 HARNESS_BIN = "lfu"
 HARNESS_FEATURES = ""
@@ -55,12 +59,14 @@ TRUSTED_EXTRA = [
 ]
 
 def _run_shard(args):
-    binp, seed, tier, outdir, n, replay = args
+    binp, seed, tier, outdir, n, replay = args[:6]
+    extra_env = args[6] if len(args) > 6 else None
     os.makedirs(outdir, exist_ok=True)
     cmd = [binp, "--seed", str(seed), "--tier", tier, "--out", outdir]
-    if n: cmd += ["--n", str(n)]
+    if n is not None and (n or extra_env): cmd += ["--n", str(n)]
     if replay: cmd += ["--replay", replay]
-    p = subprocess.run(cmd, stdout=subprocess.PIPE, stderr=subprocess.STDOUT, text=True, timeout=3600)
+    env = dict(os.environ, **extra_env) if extra_env else None
+    p = subprocess.run(cmd, stdout=subprocess.PIPE, stderr=subprocess.STDOUT, text=True, timeout=3600, env=env)
     if p.returncode != 0 or not os.path.exists(os.path.join(outdir, "report.json")):
         return {"seed": seed, "error": f"harness rc={p.returncode}: {p.stdout[-800:]}"}
     ops, imp, mod = (os.path.join(outdir, f) for f in ("ops.txt", "impl.txt", "model.txt"))
@@ -144,14 +150,27 @@ def run(ctx):
 
 
 def search(ctx, res):
-    """Boosted search when a proof or the correspondence broke and the oracle saw nothing: 10x cases, fresh seeds."""
+    """Boosted search when a proof or the correspondence broke and the oracle saw nothing.
+    Stage 1: the write-behind family alone (Notify re-pin between the unpin notification and the maintenance pass;
+    the random generator reaches that window only by luck), many more and longer histories, fresh seeds, no random
+    cases and no thread stress.  Stage 2 (only if stage 1 found nothing): 10x random cases, fresh seeds."""
     ok, out, dt, binp = vlib.cargo_build(HARNESS_BIN, HARNESS_FEATURES)
     if not ok: return []
+    known = {s for e in vlib.load_known(PID) for s in e.get("signatures", [])}
+    wb = 250 if ctx.quick() else 1000
+    env = {"LFU_WB": str(wb), "LFU_WB_LONG": "1", "LFU_SKIP_MT": "1"}
+    jobs = [(binp, ctx.seed * 1000 + 700 + i, ctx.tier, os.path.join(ctx.work, f"w{i}"), 0, None, env) for i in range(16)]
+    shards = vlib.shard_map(_run_shard, jobs, ctx.jobs)
+    r1 = vlib.Result()
+    _collect(ctx, r1, shards)
+    res.extra["boosted_search_write_behind"] = {"evaluations": r1.evaluations, "lines": r1.lines_compared, "disagreements": len(r1.disagreements),
+                                                "histories_per_shard": wb}
+    found = [f for f in r1.oracle_failures if f["sig"] not in known]
+    if found: return found
     n = 15000 if ctx.quick() else 40000
     jobs = [(binp, ctx.seed * 1000 + 500 + i, ctx.tier, os.path.join(ctx.work, f"b{i}"), n, None) for i in range(16)]
     shards = vlib.shard_map(_run_shard, jobs, ctx.jobs)
     r2 = vlib.Result()
     _collect(ctx, r2, shards)
     res.extra["boosted_search"] = {"evaluations": r2.evaluations, "lines": r2.lines_compared, "disagreements": len(r2.disagreements)}
-    known = {s for e in vlib.load_known(PID) for s in e.get("signatures", [])}
     return [f for f in r2.oracle_failures if f["sig"] not in known]
